@@ -748,8 +748,10 @@ def run(ctx):
     # -- R8.1 pairs from the XML writers -------------------------------------------------------------------
     ctx.rule("R8.1", "the reference next to cached values and the worksheet write for those cells use the same data attribute")
     pairs = {}  # ref name -> set(attr)
+    wmods_ = [wm] + [prog.modules[i_[1]] for i_ in wm.imports.values() if i_[0] == "attr" and i_[1].startswith("pptx.chart.")
+                     and i_[1] in prog.modules]   # the writers, and the chart modules they take definitions from
     for f in prog.all_functions():
-        if f.module is not wm:
+        if not any(f.module is m_ for m_ in wmods_):
             continue
         for c in ast.walk(f.node):
             if isinstance(c, ast.Call) and (dotted(c.func) or "").endswith("numRef_xml") and len(c.args) == 3:
